@@ -309,6 +309,7 @@ pub fn run(cfg: &Cfg) {
     }
     let n = if cfg.thorough { 20_000 } else { 1_500 };
     for i in 0..n {
+        let mut r = r.at(i as u64);
         let key = *r.pick(&ed);
         let meta = if i % 3 == 0 {
             MetadataWrapper::Layout(gen_layout(&mut r, &pool))
